@@ -7,6 +7,7 @@ import ecanon
 import elin
 import eunits
 import eskip
+import eraw
 
 LEVEL = "E-UNITS.pre + E-UNITS + E-LIN on oxidd-reorder"
 
@@ -53,5 +54,9 @@ def run(ctx):
                 "with Base, walks the levels bottom-up and appends node(level; prev, prev) per level, then stores the chain.")
     n = etaut.run(ctx, F)
     ctx.floor("E-TAUT", "lookup / build situations", n, 8)
+    ctx.explain("E-RAW: level_swap removes dying nodes from, and looks rewritten nodes up in, the per-level open-addressing "
+                "tables: probe chains stay intact (a vacated slot becomes FREE only next to a FREE cyclic successor, lookups stop "
+                "on FREE only, free-slot accounting) -- otherwise a live node becomes unfindable and a duplicate is created.")
+    eraw.run(ctx, F)
     ctx.not_decided = ("that functions are preserved, that the requested order is reached with minimal swaps, "
                        "non-overlap of concurrent swaps (runtime indices)")
